@@ -603,6 +603,17 @@ func (env *c12Env) faultCase(c c12Case, k int, rejf *fwd) map[string]any {
 func c12Hostile(e *env) {
 	n := 400
 	fmt.Sscan(e.args["n"], &n)
+	hostileFields = nil
+	for _, name := range strings.Split(e.args["fields"], ",") {
+		if name == "" {
+			continue
+		}
+		line, ok := hostileFieldLines[name]
+		if !ok {
+			fatal("FaultCases.tla HostileFields names %q: the harness has no spelling for it", name)
+		}
+		hostileFields = append(hostileFields, line)
+	}
 	ca, _ := harnessCAs()
 	_ = ca
 	log := &hitLog{}
@@ -721,27 +732,30 @@ func probeStacking(f *fwd, name string) error {
 	return nil
 }
 
-// hostileFields: the spellings of FaultCases.tla HostileFields, in the order of its Seq
-var hostileFields = []string{
-	"Via: 1.1 alpha (never closed\\",       // viaOpenCommentBackslashEnd
-	"Via: (\\",                              // viaOnlyCommentBackslash
-	"Via: 1.1 a (b (c (d \\) e",             // viaNestedQuotedPair
-	"Via: \\",                               // viaBackslash
-	"Via: ,,(,),,",                           // viaEmptyElements
-	"Via: 1.1",                               // viaNoReceivedBy
-	"Via: " + strings.Repeat("(", 4000),      // viaDeepNesting
-	"Forwarded: for=\"unterminated",          // forwardedOpenQuote
-	"Forwarded: ;;;=,=;",                     // forwardedEmptyPairs
-	"X-Forwarded-For: , ,,",                  // xffEmptyElements
-	"Connection: \\, (, close",              // connectionOddTokens
-	"Proxy-Authorization: Basic",             // proxyAuthNoCredentials
-	"Proxy-Authorization: Basic ====",        // proxyAuthPaddingOnly
-	"Authorization: Basic \x80\x81",          // authorizationNotUTF8
-	"Upgrade: ,",                             // upgradeEmptyToken
-	"Keep-Alive: timeout=-1, max=",           // keepAliveOddParams
-	"TE: trailers;q=",                        // teOddParams
-	"Accept-Encoding: gzip;q=1.0000000000000000000000000000000001", // aeLongWeight
+// hostileFieldLines: the spelling of every class of FaultCases.tla HostileFields
+var hostileFieldLines = map[string]string{
+	"viaOpenCommentBackslashEnd": "Via: 1.1 alpha (never closed\\",
+	"viaOnlyCommentBackslash":    "Via: (\\",
+	"viaNestedQuotedPair":        "Via: 1.1 a (b (c (d \\) e",
+	"viaBackslash":               "Via: \\",
+	"viaEmptyElements":           "Via: ,,(,),,",
+	"viaNoReceivedBy":            "Via: 1.1",
+	"viaDeepNesting":             "Via: " + strings.Repeat("(", 4000),
+	"forwardedOpenQuote":         "Forwarded: for=\"unterminated",
+	"forwardedEmptyPairs":        "Forwarded: ;;;=,=;",
+	"xffEmptyElements":           "X-Forwarded-For: , ,,",
+	"connectionOddTokens":        "Connection: \\, (, close",
+	"proxyAuthNoCredentials":     "Proxy-Authorization: Basic",
+	"proxyAuthPaddingOnly":       "Proxy-Authorization: Basic ====",
+	"authorizationNotUTF8":       "Authorization: Basic \x80\x81",
+	"upgradeEmptyToken":          "Upgrade: ,",
+	"keepAliveOddParams":         "Keep-Alive: timeout=-1, max=",
+	"teOddParams":                "TE: trailers;q=",
+	"aeLongWeight":               "Accept-Encoding: gzip;q=1.0000000000000000000000000000000001",
 }
+
+// hostileFields: the lines for the classes the module lists (--arg fields=a,b,...), in its order
+var hostileFields []string
 
 func hostileStream(r *rand.Rand, stacking string) []byte {
 	valid := []string{
